@@ -23,7 +23,7 @@ ASSUMPTIONS = [
     "an atom adopted through append_bond (foreign atom) was given no coordinate: any row / any numeric charge is accepted "
     "for it, after which it must keep them",
 ]
-REQUIRED = {"op.del_atom": 500, "op.del_atom.by-element": 50, "op.del_atom.by-label": 50, "op.add_atom.no-charge": 100,
+REQUIRED = {"op.readd_atom": 100, "op.del_atom": 500, "op.del_atom.by-element": 50, "op.del_atom.by-label": 50, "op.add_atom.no-charge": 100,
             "op.append_bond.foreign": 50, "op.remove_substituent": 50, "op.add_implicit_hydrogens": 50,
             "inspect": 5000, "op.raised": 50, "view.held-substructure-checked": 500, "op.extend_bonds.generator": 10, "op.del_bond.parallel": 5, "op.connect.stale-or-foreign-atom": 20, "start.unpickled": 5, "start.mol2": 20, "exh.sequences": 1000}
 CHUNK_TIMEOUT = 900
@@ -206,6 +206,24 @@ class Driver:
                     ctx.count("op.add_atom.no-charge")
                     m.add_atom(a, row)
                     mod.add(a, row, 0.0)
+            elif kind == "readd_atom":
+                # an Atom object that was part of this molecule and was deleted is put back (undo of a deletion, moving
+                # a group around): it is an atom like any other and gets its row and charge at the end
+                a = op[1]
+                if op[2] == "add_atom":
+                    row, q = self.sentinel()
+                    if self.is_mol and rng.random() < 0.5:
+                        m.add_atom(a, row, q)
+                        mod.add(a, row, q)
+                    else:
+                        m.add_atom(a, row)
+                        mod.add(a, row, 0.0)
+                else:
+                    bond = Bond(mod.resolve(op[3]), a)
+                    m.append_bond(bond)
+                    mod.add(a, (0, 0, 0), 0.0)
+                    self.free.add(id(a))
+                    mod.add_bond(bond)
             elif kind == "new_atom":
                 row, _ = self.sentinel()
                 a = m.new_atom(rng.choice(["C", "N", "O", "S"]), coord=row, label=f"N{self.k}")
@@ -343,6 +361,12 @@ def pick_op(rng, d):
     if n == 0 or r < 0.14:
         return ("add_atom", rng.choice(["charge", "none"]))
     if r < 0.20:
+        gone = [a for a in mod._keep if mod.index(a) < 0]
+        if gone and rng.random() < 0.5:
+            a = rng.choice(gone)
+            if n and rng.random() < 0.5:
+                return ("readd_atom", a, "bond", rng.randrange(n))
+            return ("readd_atom", a, "add_atom")
         return ("new_atom",)
     if r < 0.48:
         how = rng.choice(["atom", "index", "label", "element", "index-bad", "label-bad", "atom-foreign"])
